@@ -52,9 +52,10 @@ def _tlc_trace(ctx, recs, tag):
                               (r.distinct, expect))
     bad = {}
     for line in r.prints:
-        if line.startswith('<<"MISMATCH"'):
-            v = vlib.parse_tla_value(line)
-            bad.setdefault(v[1], []).append(v[2:])
+        if line.startswith('"{'):
+            v = json.loads(json.loads(line))
+            if "mismatch" in v:
+                bad.setdefault(v["mismatch"], []).append([v["kind"], v["ev"], v["expected"], v["got"]])
     return r, bad
 
 
